@@ -59,6 +59,7 @@ pub fn exec_array(scn: &Scenario, prop: Prop) -> RunResult {
         ElemTy::OptN64 => exec_nan::<Option<N64>>(scn, prop),
         ElemTy::Boxed => exec_ord::<Boxed>(scn, prop),
         ElemTy::Fat => exec_ord::<Fat>(scn, prop),
+        ElemTy::Reent => exec_ord::<Reent>(scn, prop),
     }
 }
 
